@@ -505,7 +505,7 @@ fn replace_blob(bytes: &[u8], lenf: &Field, content: &[u8]) -> Vec<u8> {
 }
 
 /// number of coordinated edit kinds
-pub const COORDINATED_KINDS: usize = 9;
+pub const COORDINATED_KINDS: usize = 10;
 /// index of "FRI remainder of another length" among the coordinated kinds (the `_` arm below)
 pub const REMAINDER_KIND: usize = 7;
 
@@ -652,6 +652,31 @@ pub fn coordinated_fault(bytes: &[u8], lay: &Layout, kind: usize, variant: usize
                 out.extend(std::iter::repeat(3u8).take(l as usize));
             }
             Some((format!("coordinated: GKR proof announced with {l} bytes"), out))
+        },
+        9 => {
+            // the proof-of-work nonce moved by a multiple of the base field's modulus M (read from
+            // the proof's own context), or set to M itself: integers that a hasher which splits
+            // the nonce into field elements must keep apart from the original
+            let mlen = find(lay, "ctx.modulus_len")?;
+            let l = get(bytes, mlen.off, 1) as usize;
+            if l > 8 {
+                return None;
+            }
+            let m = get(bytes, mlen.off + 1, l);
+            let nf = find(lay, "pow_nonce")?;
+            let cur = get(bytes, nf.off, 8);
+            let new = match variant % 4 {
+                0 => cur.checked_add(m)?,
+                1 => cur.checked_add(m.checked_mul(2)?)?,
+                2 => cur.checked_add(m.checked_mul(3)?)?,
+                _ => m,
+            };
+            if new == cur {
+                return None;
+            }
+            let mut out = bytes.to_vec();
+            put(&mut out, nf.off, 8, new);
+            Some((format!("coordinated: proof-of-work nonce {cur} replaced by {new} (modulus {m})"), out))
         },
         8 => {
             // trace metadata of another length with the length prefix adjusted: zero bytes
